@@ -189,13 +189,16 @@ class Proxy(object):
     def __iter__(self):
         try:
             # use remote iterator if it exists
-            yield from self.__getattr__('__iter__')()
+            remote_iterator = self.__getattr__('__iter__')()
         except AttributeError:
             # fallback to indexed based iteration
             try:
                 yield from (self[index] for index in range(sys.maxsize))
             except (StopIteration, IndexError):
                 return
+        else:
+            # (not inside the try: an AttributeError that the remote iterator raises along the way is the caller's to see)
+            yield from remote_iterator
 
     def _pyroRelease(self):
         """release the connection to the pyro daemon"""
